@@ -9,19 +9,19 @@ K = "Kani 0.68 harnesses compiled into the real crate (cfg(kani) verif_hooks): i
 V = "Verus 0.2026.09.13 on functions extracted mechanically from /repo on every run (rewrite rules with application counts; diffs under evidence/diffs/), contracts spliced from /verif/verus/units"
 
 CHECKS = {
- "C01": dict(tech="Kani inductive-step harnesses on the real rings / zero-copy queues / pool / Uni channels (accept-or-reject, FIFO consume, exactly-once) + Verus on AtomicMove / FullSyncMove extracted for symbolic BUFFER_SIZE (counter arithmetic incl. transient overshoot states, protocol-typed counters, write-before-publish, lock discipline) + Verus on the crossbeam-backed Uni channel's glue (queue = assumed bounded FIFO)",
+ "C01": dict(tech="Kani inductive-step harnesses on the real rings / zero-copy queues / pool / Uni channels (accept-or-reject, FIFO consume, exactly-once) + Verus on AtomicMove / FullSyncMove extracted for symbolic BUFFER_SIZE (counter arithmetic incl. transient overshoot states, protocol-typed counters, write-before-publish, lock discipline) + Verus on the crossbeam-backed Uni channel's glue (queue = assumed bounded FIFO) + Verus on the glue of the four non-crossbeam Uni channels (units uni_movable_atomic / uni_movable_full_sync / uni_zero_copy_atomic / uni_zero_copy_full_sync) for SYMBOLIC BUFFER_SIZE / MAX_STREAMS, verified MODULARLY against the container's contract (callee contract, not body) + Verus pool_allocator (symbolic POOL_SIZE)",
              text="Proof, for every sequential history (induction over the ring invariant, every u32 counter origin, every fill level, every payload; BUFFER_SIZE in {2,4,8}, MAX_STREAMS in {1,2}), that an accepted event enters the container once, leaves once through consume with exactly its payload, and that a rejected send hands the payload / un-invoked setter back and changes nothing. Interleavings of concurrent producers/consumers on the lock-free ring are NOT decided.",
              note="K: concrete const generics; CBMC's sequential model of atomics; the crossbeam queue itself is an ASSUMED bounded FIFO (Kani cannot compile crossbeam), its channel's glue is decided by Verus. Full-sync kinds: all schedules modulo 'the spin lock excludes' + SC.", ref="DESIGN §3.1, §4 C01"),
- "C02": dict(tech="Kani inductive-step harnesses: FIFO order, capacity, pending count on rings, zero-copy queues and Uni channels + Verus ring_atomic / ring_full_sync (symbolic BUFFER_SIZE, every u32 counter value)",
+ "C02": dict(tech="Kani inductive-step harnesses: FIFO order, capacity, pending count on rings, zero-copy queues and Uni channels + Verus ring_atomic / ring_full_sync (symbolic BUFFER_SIZE, every u32 counter value) + Verus Uni channel glue units (send / consume against the container contract, symbolic sizes)",
              text="Proof of the sequential FIFO contract: consume yields seq[0]; None iff empty; reject iff all BUFFER_SIZE slots are taken (published + reserved, or pool slots outstanding); pending_items_count == |seq|; never more than BUFFER_SIZE pending. 'Every operation takes effect at one instant' under real concurrency of AtomicMove is NOT decided.",
              note="as C01", ref="DESIGN §3.1, §4 C02"),
  "C03": dict(tech="Kani harnesses on the Arc Multi channels (quick) and the pooled / log Multi channels (thorough): fan-out to exactly the live listeners, same allocation, per-listener FIFO + Verus send_derived of the pooled channels for symbolic MAX_STREAMS / BUFFER_SIZE + Kani/Verus on the mmap log topic (one append, per-listener cursor; A-model: publication only by compare-exchange from the own ticket) + Verus send_derived of the three Arc Multi channels incl. the crossbeam one (symbolic MAX_STREAMS; every raw copy of a pooled handle covered by a reference counted BEFORE the copy exists)",
              text="Proof (sequential, listener set fixed as the statement says) that one accepted send puts exactly one handle to the SAME allocation into the queue of every live listener and of no other, keeps per-listener order, and that the handle count equals the number of listeners; log channel: publish appends one entry, cursors yield entries in log order.",
              note="K: BUFFER_SIZE 2 (4 thorough), MAX_STREAMS 1 (2 thorough); V: symbolic sizes, listener queues as assumed FIFO contracts (crossbeam: assumed); producers racing consumers not decided.", ref="DESIGN §4 C03"),
- "C04": dict(tech="Kani harnesses: empty-to-non-empty send wakes a live parked stream, for every accepting entry point of the 4 Uni + 4 Multi channels; poll_next registers the waker after the consume attempt; a send_with_async completing into a drained channel wakes a parked stream; Verus: wake fan-outs of all five non-log Multi channels and the crossbeam Uni channel for symbolic MAX_STREAMS",
+ "C04": dict(tech="Kani harnesses: empty-to-non-empty send wakes a live parked stream, for every accepting entry point of the 4 Uni + 4 Multi channels; poll_next registers the waker after the consume attempt; a send_with_async completing into a drained channel wakes a parked stream; Verus: wake fan-outs of all five non-log Multi channels and the crossbeam Uni channel for symbolic MAX_STREAMS + Verus Uni channel glue units: every accepting entry point of the four non-crossbeam Uni channels wakes stream #0 for an event entering an empty queue, AFTER the event is visible, with every wake index < MAX_STREAMS (symbolic MAX_STREAMS); the resumed send_with_async decides from the queue as it is after the suspension",
              text="Proof of a NECESSARY sequential condition of 'no lost wake-up': with streams 0..s created and parked and the queue empty, every accepting entry point wakes a live stream (Multi: every live listener), every wake index is < MAX_STREAMS, and poll_next stores the waker before answering Pending (self-wake on waker replacement). The race between the wake decision and the consumer's check/register/park steps is a liveness property over interleavings and is NOT decided.",
              note="necessary condition only; see DESIGN §4 C04 for the residue", ref="DESIGN §4 C04"),
- "C05": dict(tech="Kani harnesses with a drop-counting payload on the real rings, pool, OgreArc/OgreUnique and the Multi channels incl. teardown with buffered events (CBMC's dead-object / double-free checks are obligations)",
+ "C05": dict(tech="Kani harnesses with a drop-counting payload on the real rings, pool, OgreArc/OgreUnique and the Multi channels incl. teardown with buffered events (CBMC's dead-object / double-free checks are obligations) + Verus pool_allocator: dealloc_id runs the destructor exactly once iff needed and BEFORE the id is allocatable again (symbolic POOL_SIZE)",
              text="Proof (sequential histories, by induction over the ring / pool / handle invariants) that every payload is dropped exactly once -- on consume-and-release, on reject never, on teardown with leftovers exactly the leftovers --, that a pool slot is handed out only when not outstanding, that storage is returned exactly when the last handle goes, and that tearing a channel down with buffered events touches no freed memory.",
              note="two threads dropping the last two handles simultaneously: RMW atomicity assumed; handles outliving the channel excluded by the statement", ref="DESIGN §3.2, §4 C05"),
  "C06": dict(tech="Verus on the de-asynced flush / end_stream / end_all_streams loops of StreamsManagerBase (symbolic MAX_STREAMS, ghost log of observations and cancels) + Kani poll_next (drain before end-of-stream) on the real channels",
@@ -30,7 +30,7 @@ CHECKS = {
  "C07": dict(tech="Verus: cancel_stream (flag cleared before the wake, exactly one target), cancel_all_streams (exactly the live list) for symbolic MAX_STREAMS; Kani: StreamsManagerBase from arbitrary Inv_SM states (cancel / drop / id reuse) and poll_next on the real channels",
              text="Proof that cancel_stream clears the flag of its one target and then wakes it, that cancel_all_streams targets exactly the ids of the live list and changes no other flag, that poll_next after a cancel still yields buffered events and answers end-of-stream on the first empty consume without needing a further event, and that a dropped stream's id becomes allocatable again. The cancel landing between the keep-running check and the waker registration is an interleaving and is NOT decided.",
              note="'flag first, wake second' is a mechanism-preservation obligation (no sequential input exhibits its failure)", ref="DESIGN §3.3, §4 C07"),
- "C08": dict(tech="Kani inductive-step harnesses over states with outstanding reservations on AtomicMove, the zero-copy queues, and the Uni / ogre_arc Multi channels (reserve, fill, send-reserved or cancel)",
+ "C08": dict(tech="Kani inductive-step harnesses over states with outstanding reservations on AtomicMove, the zero-copy queues, and the Uni / ogre_arc Multi channels (reserve, fill, send-reserved or cancel) + Verus Uni channel glue units: reserve_slot / try_send_reserved / try_cancel_slot_reserve keep the reservation book (oldest publishes, newest cancels on the movable ring; any order on the pooled kinds) for symbolic sizes; ring_atomic consume path",
              text="Proof (sequential histories, every counter origin incl. the 2^32 wrap, every number of outstanding reservations) that a successfully sent reserved slot is delivered once with precisely the written content, a successfully cancelled one is never delivered, and that with all reservations resolved the channel accepts exactly BUFFER_SIZE events again.",
              note="interleavings with a concurrently polling consumer not decided", ref="DESIGN §3.1, §4 C08"),
  "C09": dict(tech="Kani on the REAL MMapMeta / subscribers over a fake mapping (publish, three subscription kinds, both consume()s) + Verus on the same functions extracted (symbolic log length) + partition lemma",
@@ -45,16 +45,16 @@ CHECKS = {
  "C12": dict(tech="Verus on the six de-asynced executor task bodies with ghost phase/clock, register_execution_start/finish (with a termination obligation), the lifted latch_callback_1p closure, and call-site obligations generated from the four Multi::spawn_*_oldies_executor (the newies executor is spawned inside the oldies' close callback iff sequential_transition; each executor registered under its own stream id)",
              text="Proof that the close callback is invoked exactly once, after for_each returned and after the finish was registered, finding an 'ended' status (programmatically ended only if it had been scheduled to finish) and a finish time not before the start time; that the Uni latch invokes the user callback at exactly the MAX_STREAMS-th call. report_scheduled_to_finish racing the end and out-of-order completion inside for_each_concurrent are NOT decided.",
              note="monotone clock, tokio::spawn, for_each*: assumed", ref="DESIGN §4 C12"),
- "C13": dict(tech="Kani inductive-step harnesses on OgreArrayPoolAllocator with both free-list kinds from an arbitrary permutation / split of the ids and arbitrary free-list origin (incl. the mechanism obligation: the destructor runs before the id is back on the free list) + Verus on both free-list rings (symbolic size)",
+ "C13": dict(tech="Kani inductive-step harnesses on OgreArrayPoolAllocator with both free-list kinds from an arbitrary permutation / split of the ids and arbitrary free-list origin (incl. the mechanism obligation: the destructor runs before the id is back on the free list) + Verus on both free-list rings (symbolic size) + Verus pool_allocator: new / alloc_ref / alloc_with / dealloc_id / dealloc_ref / id<->ref for SYMBOLIC POOL_SIZE against the free list's bounded-FIFO contract (representation invariant: free ids distinct, disjoint from the outstanding set, |free| + |out| == POOL_SIZE)",
              text="Proof (all sequential histories, POOL_SIZE in {2,4,8}, incl. exhaust/refill cycles and free-list counter wrap) that alloc hands out only ids that are not outstanding, fails iff all are outstanding, dealloc makes the id allocatable again, and id<->reference conversion is a bijection onto the pool. FullSync free list: all schedules modulo lock exclusion; atomic free list under concurrency NOT decided.",
              note="as C01", ref="DESIGN §3.2, §4 C13"),
- "C14": dict(tech="Kani harnesses on OgreArc / OgreUnique over the real pool with a drop-counting payload (inductive over the reference count), incl. one adversarial step: another owner drops its handle right after this thread's decrement (the last-owner decision must come from the own fetch_sub) + Verus: raw copies covered by references counted beforehand",
+ "C14": dict(tech="Kani harnesses on OgreArc / OgreUnique over the real pool with a drop-counting payload (inductive over the reference count), incl. one adversarial step: another owner drops its handle right after this thread's decrement (the last-owner decision must come from the own fetch_sub) + Verus: raw copies covered by references counted beforehand + Verus pool_allocator (the release path of the last handle: dealloc_id)",
              text="Proof (sequential) that clone / drop / bulk increment + raw copies / into_ogre_arc keep 'references_count == live handles', that every handle dereferences to the value written at creation, and that the value is destroyed and its slot returned exactly when the last handle is dropped, a unique->shared conversion neither destroying nor duplicating it.",
              note="clone racing the final drop on different threads: RMW atomicity assumed", ref="DESIGN §3.2, §4 C14"),
  "C15": dict(tech="Kani: every ring / pool / zero-copy harness starts from a SYMBOLIC counter origin (all 2^32 values) with overflow checks on + Verus: AtomicMove / FullSyncMove arithmetic for symbolic BUFFER_SIZE and every u32 counter value (arithmetic overflow obligations, lap lemma)",
              text="Proof that none of the ring, pool, zero-copy queue contracts depends on the counter origin: accept/reject answers, delivered values and order, reported lengths are as from origin 0, and no arithmetic overflow panic is reachable from any origin (both build modes: CBMC checks + - * like an overflow-checking build, the functional contracts are stated in wrapping arithmetic).",
              note="as C01", ref="DESIGN §3.1, §4 C15"),
- "C16": dict(tech="Kani: reject branches' frame conditions on rings / zero-copy queues / pool, Uni channels and the ogre_arc Multi channels, incl. one adversarial step at the capacity boundary (the receding compare-exchange loses against another producer while a consumer frees a slot: the fullness test is repeated on the current head) + Verus: ring_atomic / ring_full_sync reject paths for symbolic BUFFER_SIZE, crossbeam Uni glue",
+ "C16": dict(tech="Kani: reject branches' frame conditions on rings / zero-copy queues / pool, Uni channels and the ogre_arc Multi channels, incl. one adversarial step at the capacity boundary (the receding compare-exchange loses against another producer while a consumer frees a slot: the fullness test is repeated on the current head) + Verus: ring_atomic / ring_full_sync reject paths for symbolic BUFFER_SIZE, crossbeam Uni glue + Verus Uni channel glue units (a rejected send / send_with / send_with_async hands the very input back and leaves the abstract channel state unchanged, symbolic sizes) + Verus pool_allocator (a failed allocation changes nothing)",
              text="Proof (sequential) that a rejected send leaves all counters, the buffer, the free list and everything a stream could yield unchanged, hands the input back, runs no unbounded loop (unwinding assertions), and that exactly BUFFER_SIZE events can be outstanding after any history. Producers colliding at the capacity boundary are NOT decided.",
              note="as C01", ref="DESIGN §4 C16"),
  "C18": dict(tech="Verus on push/pop of both stacks for a SYMBOLIC capacity with the lock as a resource invariant (every access to head/buffer asserted under the lock) + Kani on the atomic stack (incl. 'the environment acts at the instant of the release': pop's answer is fixed inside the critical section) and both non-blocking queues",
@@ -63,7 +63,7 @@ CHECKS = {
  "C19": dict(tech="Kani function contracts IN PLACE on split_joined / join_split (cfg_attr(kani, kani::ensures), proof_for_contract) reused modularly (stub_verified) for atomic_compute / probe + loop-free harnesses over every 64-bit word / every (u32, f32-bits) pair: split/join inverse, probe reads one word, inc counts exactly one from any count + Verus A-model on atomic_compute (left only through one successful compare-exchange on the value it computed from)",
              text="Proof that split/join are mutually inverse on all 2^64 words (so a reading returns the count and the average of the same update), that one inc from ANY count moves it by exactly one (101 at the documented reset) through one compare-exchange on the current word, and (bounded stand-in on small quarter-integer inputs) that the stored average is the incremental-mean step. 'Average equals the arithmetic mean within tolerance' over long sequences (floating-point error accumulation) and lost-update freedom under real concurrency (CAS retry loop) are NOT decided.",
              note="CBMC float model; concurrency residue", ref="DESIGN §4 C19"),
- "C20": dict(tech="Kani: send_with_async of every Uni / Multi channel polled once with a never-ready setter: state assertion at the suspension point + other operations complete without spinning (unwinding assertion) + the resumed send's event wakes a parked stream; Verus: the crossbeam Uni channel's async send yields instead of busy-spinning when the queue filled up during the suspension",
+ "C20": dict(tech="Kani: send_with_async of every Uni / Multi channel polled once with a never-ready setter: state assertion at the suspension point + other operations complete without spinning (unwinding assertion) + the resumed send's event wakes a parked stream; Verus: the crossbeam Uni channel's async send yields instead of busy-spinning when the queue filled up during the suspension + Verus Uni channel glue units: state assertion `nothing that makes others wait is held` at the suspension point of send_with_async (symbolic sizes; the two movable kinds are the known findings), and the resumed send's wake decision",
              text="Proof (state form) that at the .await of send_with_async no queue-wide lock and no unpublished ring reservation is held, and (operational form) that a plain send and a consume issued meanwhile complete in a bounded number of steps and are delivered. KNOWN FINDINGS on the unchanged tree: the two movable Uni channels hold the spin lock / a ring reservation across the await.",
              note="bounded-step completion under real concurrency for spin loops in general is not decided", ref="DESIGN §4 C20"),
 }
